@@ -219,6 +219,39 @@ def run(R, tier):
                                    f'substituting {point}, operating on the numbers gives {w!r} (a blade whose coefficient is not identically zero must not be dropped)',
                      op=op, scale=scale, keys=[kn, ks])
                 break
+    # coefficients that are functions composed with their inverses or with branch cuts (asin(sin t), acos(cos t), log(exp(I t)),
+    # sqrt(t**2), Abs): the automatic simplification may only rewrite them to something equal for EVERY value of the symbols
+    t = sympy.Symbol('t')
+    fexprs = [sympy.asin(sympy.sin(t)), sympy.acos(sympy.cos(t)), sympy.atan(sympy.tan(t)), sympy.sqrt(t ** 2), sympy.Abs(t) + t,
+              sympy.log(sympy.exp(t)) * 2, sympy.sin(t) ** 2 + sympy.cos(t) ** 2 - 1, (t ** 2) ** sympy.Rational(1, 2) - t]
+    for it in range(10 if tier == 'quick' else 120):
+        d = rng.choice((2, 3))
+        alg = algs.make_impl({'sig': [rng.choice((1, -1)) for _ in range(d)]})
+        canon = list(alg.canon2bin.values())
+        ks = rng.sample(canon, 2)
+        f1, f2 = rng.sample(fexprs, 2)
+        a = MultiVector.fromkeysvalues(alg, tuple(ks), [f1, sympy.Integer(rng.randint(1, 4))])
+        b = MultiVector.fromkeysvalues(alg, tuple(ks), [sympy.Integer(rng.randint(1, 4)), f2])
+        tv = rng.choice((3, -2, sympy.Rational(7, 2), -5))
+        op = rng.choice(['add', 'sub', 'neg', 'reverse', 'involute', 'conjugate', 'gp', 'op'])
+        R.count('op=' + op); R.count('function-valued coefficients'); R.case(('fun', it, op, str(f1), str(f2), str(tv)), True)
+        def num(mv_):
+            return MultiVector.fromkeysvalues(alg, mv_.keys(), [complex(sympy.N(sympy.sympify(v).subs(t, tv))) for v in mv_.values()])
+        try:
+            args = [a, b] if op in ('add', 'sub', 'gp', 'op') else [a]
+            sym = getattr(alg, op)(*args)
+            want = getattr(alg, op)(*[num(m) for m in args])
+            got = {int(k): complex(sympy.N(sympy.sympify(v).subs(t, tv))) for k, v in zip(sym.keys(), sym.values())}
+            exp = {int(k): complex(v) for k, v in zip(want.keys(), want.values())}
+        except Exception as e:  # noqa
+            viol('symbolic-raises', f'{op} on coefficients {f1}, {f2} raised {type(e).__name__}: {e}'[:300], op=op)
+            continue
+        for k in set(got) | set(exp):
+            g, w = got.get(k, 0), exp.get(k, 0)
+            if abs(g - w) > 1e-9 * max(1.0, abs(w)):
+                viol('subst-subs', f'{op} with coefficients {f1} and {f2} in Algebra(sig={list(alg.signature)}): blade {k} evaluates to {g} at t = {tv} after operating symbolically, '
+                                   f'operating on the numbers gives {w} (the simplification rewrote a coefficient to a different function)', op=op, f=[str(f1), str(f2)], t=str(tv))
+                break
     # argument binding on hand-built expressions
     alg = algs.make_impl({'sig': [1, 1]})
     m = alg.multivector(e1='b+1', e2='a*b', e12='c-a')
